@@ -72,7 +72,17 @@ func (o *OperatorPartition) ExclusivelyOwnsTable(uri string, startKey []byte, en
 	return !neighborNeedsTable, err
 }
 
+// OverlapsTable reports whether a table with the given key range can hold keys
+// of this operator's key groups.
+func (o *OperatorPartition) OverlapsTable(startKey []byte, endKey []byte) bool {
+	if len(startKey) < 2 || len(endKey) < 2 {
+		return true
+	}
+	return o.keyGroupRange.Overlaps(partitioning.KeyGroupRangeFromBytes(startKey[:2], endKey[:2]))
+}
+
 var _ kv.DataOwnership = &OperatorPartition{}
+var _ kv.TableRangeOwnership = &OperatorPartition{}
 
 type neighborPartition struct {
 	keyGroupRange partitioning.KeyGroupRange
